@@ -26,7 +26,7 @@ class HeapGcModel(gcmodel.GcModel):
             "trace_gc": "<context::Context as collect::Trace>::trace_gc",
             "trace_gc_weak": "<context::Context as collect::Trace>::trace_gc_weak", "by_ref": False}
         super().__init__(prog, allow_panic=allow_panic)
-        self.ip.max_steps = 400000
+        self.ip.max_steps = 10000     # the longest run on the unchanged tree takes 1 552 steps (all paths together); see interp.TOTAL_STEPS_FACTOR
 
     # -- nested interpretation of an interpreted function on the current state (frames of the caller preserved)
     def nested(self, st, name, args):
